@@ -191,6 +191,7 @@ pub fn wrappers() -> Vec<(Vec<Misc>, Vec<Misc>)> {
         vec![Misc::PI("target data".into())],
         vec![Misc::PI("xml-stylesheet type=\"text/xsl\" href=\"s.xsl\"".into()), Misc::Text("\n".into())],
         vec![Misc::DocType("r".into())],
+        vec![Misc::Text("\n  ".into())],
     ];
     let epilogs: Vec<Vec<Misc>> = vec![vec![], vec![Misc::Comment("tail".into())], vec![Misc::Text("\n".into()), Misc::PI("end x".into())]];
     let mut out = Vec::new();
@@ -275,10 +276,12 @@ pub fn run(ctx: &Ctx) {
                     rank: i,
                 });
             }
-            // buffer capacities
-            for cap in 1..=plain.len().max(1) {
+            // buffer capacities (the document as is, and behind leading whitespace / a declaration)
+            let lead = format!("\n  {}", plain);
+            let decl = format!("<?xml version=\"1.0\"?>\n{}\n", plain);
+            for (text, cap) in (1..=plain.len().max(1)).map(|c| (&plain, c)).chain((1..=8).map(|c| (&lead, c))).chain((1..=8).map(|c| (&decl, c))) {
                 let run = || -> Result<String, String> {
-                    let el = subject::parse_reader(BufReader::with_capacity(cap, plain.as_bytes()), &RCfg::default()).map_err(|e| e.to_string())?;
+                    let el = subject::parse_reader(BufReader::with_capacity(cap, text.as_bytes()), &RCfg::default()).map_err(|e| e.to_string())?;
                     Ok(subject::render_all(&el))
                 };
                 let got = match subject::guarded(run) {
@@ -290,8 +293,8 @@ pub fn run(ctx: &Ctx) {
                 if want != got {
                     ctx.report(Violation {
                         class: "buffer-capacity".into(),
-                        summary: format!("BufReader capacity {} changes the result | {}", cap, plain),
-                        replay: json!({"kind": "capacity", "docs": base, "capacity": cap}),
+                        summary: format!("BufReader capacity {} changes the result | {:?}", cap, text),
+                        replay: json!({"kind": "capacity", "docs": base, "text": text, "capacity": cap}),
                         rank: i,
                     });
                 }
@@ -313,7 +316,7 @@ pub fn run(ctx: &Ctx) {
         Some(ctx.deadline),
         |_| (0u64, 0u64),
         |acc, i| {
-            let plain = xml(&sp2.get(i));
+            let plain = if i % 2 == 0 { xml(&sp2.get(i)) } else { format!("\n {}", xml(&sp2.get(i))) };
             let want = observe_cfg(&[plain.clone()], &RCfg::default());
             let st = explore(
                 bound,
@@ -422,7 +425,8 @@ pub fn replay(ctx: &Ctx, case: &Value) {
             let d = strs(&case["docs"]);
             let cap = case["capacity"].as_u64().unwrap_or(1) as usize;
             let want = observe_docs(&d);
-            let got = subject::parse_reader(BufReader::with_capacity(cap, d[0].as_bytes()), &RCfg::default()).map(|e| subject::render_all(&e)).unwrap_or_else(|e| format!("ERR: {}", e));
+            let text = case["text"].as_str().unwrap_or(&d[0]).to_string();
+            let got = subject::parse_reader(BufReader::with_capacity(cap, text.as_bytes()), &RCfg::default()).map(|e| subject::render_all(&e)).unwrap_or_else(|e| format!("ERR: {}", e));
             if want != got {
                 ctx.report(Violation { class: "buffer-capacity".into(), summary: format!("capacity {} changes the result", cap), replay: case.clone(), rank: 0 });
             }
